@@ -3,7 +3,7 @@ import json, random
 from lib import new_cfg
 
 KEYS_A = [0, 1, 2, 3, 1, 1, None, 'x', True, 2.5, -1]
-STRS = ['x', 'y', '', 'é', 'z z', 'a,b', 'q"q']
+STRS = ['x', 'y', '', 'é', 'z z', 'a,b', 'q"q', '=1+1', '-5', '+x', '@home']
 
 def jdump(v):
     return json.dumps(v, ensure_ascii=False, separators=(',', ':')).encode('utf8')
@@ -12,7 +12,7 @@ def record(rnd):
     r = {}
     if rnd.random() < 0.85: r['a'] = rnd.choice(KEYS_A)
     if rnd.random() < 0.8: r['b'] = rnd.choice([0, 1, 2, 'x', 'y', None, [1], {'c': 1}])
-    if rnd.random() < 0.8: r['k'] = rnd.choice(['x', 'y', '', 'é', 'x', 'y', 1, None])
+    if rnd.random() < 0.8: r['k'] = rnd.choice(['x', 'y', '', 'é', 'x', 'y', 1, None, '=1+1', '-5', '@home', '+x'])
     if rnd.random() < 0.5:
         r['arr'] = [rnd.choice([{'a': rnd.randint(0, 2), 'k': rnd.choice(['x', 'y'])}, rnd.randint(0, 3), 'x', [1]])
                     for _ in range(rnd.randint(0, 3))]
@@ -44,9 +44,9 @@ def stream(vals, rnd=None):
 FILTERS = ['(= .a 1)', '(!= .k "x")', '(< .a 2)', '.flag', '(>= .a 1)', '(and (< .a 3) (!= .a 0))', '(not (= .b "x"))',
            '(or .flag (= .a 2))', '(= (size .arr) 2)']
 SELECTS = ['.a', '.b=B', '.k', '(size .arr)=n', '.arr', '.', '(get . "a")=ga', '(? (= .a 1) "one" "other")=c',
-           '(default .a .b 0)=d', '.b.c=bc', '.arr#0=first', '(map .arr .a)=as', '(filter .arr (= .k "x"))=xs']
+           '(default .a .b 0)=d', '.b.c=bc', '.arr#0=first', '(map .arr .a)=as', '(filter .arr (= .k "x"))=xs', '.a=dup', '.k=dup']
 SORTS = ['.a', '.b=desc', '.k=ASC', '.a=DESC', '.k', '(size .arr)=Desc', '.b']
-GROUPS = ['.k', '(? (= .a 1) "one" "rest")', '.b']
+GROUPS = ['.k', '(? (= .a 1) "one" "rest")', '.b', '(map .arr .k)']
 SPLITS = ['.arr', '(filter .arr (= .k "x"))']
 SETS = [('x=1', ':x=vx'), ('@m=.a', '@m=vm'), ('y="s"', ':y=vy'), ('@am=(map .arr .a)', '@am=vam')]
 
@@ -56,6 +56,9 @@ def pipeline_cfg(rnd, want_limit=None, allow_group=True, allow_sort=True, allow_
         s, sel = rnd.choice(SETS); c['set'] = [s]
         if rnd.random() < 0.7: c['select'].append(sel)
     if rnd.random() < 0.25: c['split'] = rnd.choice(SPLITS)
+    # variables and macros are visible in --split-by as in every other option
+    if c['set'] == ['x=1'] and rnd.random() < 0.4: c['split'] = '(filter .arr (!= .a :x))'
+    if c['set'] == ['@am=(map .arr .a)'] and rnd.random() < 0.4: c['split'] = '@am'
     if rnd.random() < 0.4: c['filter'] = rnd.choice(FILTERS)
     for _ in range(rnd.choice([0, 0, 1, 2, 3])):
         s = rnd.choice(SELECTS)
